@@ -31,6 +31,7 @@ inductive Body where
   | timerSrc (v : Val)                  -- timer_task of the `timer` source
   | tick                                 -- interval_task (RepeatTask) of the `interval` source
   | bufTick (stage : Nat)               -- emit_buffer (RepeatTask) of buffer_with_time
+  | tickN (stage : Nat)                 -- interval_task of an `interval` in notifier position of `stage`
   deriving Repr, DecidableEq
 
 /-- One spawned future together with its `HandleInfo`. -/
